@@ -155,8 +155,9 @@ Definition lexer_include (w : pw) (c : cfg) (filename : str) : pw * cfg * bool (
     end.
 
 (* one call of cfg_yylex on behalf of context c *)
-Definition next_token (w : pw) (c : cfg) : pw * cfg * tok * option str :=
-  let r := yylex (w_env w) (lex_fuel (w_lex w)) (w_lex w) (c_pos c) 0 in
+Definition next_token (fuel : nat) (w : pw) (c : cfg) : pw * cfg * tok * option str :=
+  let r := yylex (w_env w) fuel (w_lex w) (c_pos c) 0 in
+  let w := if r_fuel_out r then set_oof w else w in
   let w1 := upd_lex w (r_st r) in
   let w2 := if c_err c then add_diags w1 (r_diags r) else w1 in
   let w3 := set_open w2 (w_open w2 - r_closed r) in
@@ -381,7 +382,7 @@ with parse_internal (fuel : nat) (w : pw) (c : cfg) (level : nat) (p : pst) {str
   match fuel with
   | O => (set_oof w, c, PERR)
   | S fuel' =>
-    let '(w, c, t, yylval) := next_token w c in
+    let '(w, c, t, yylval) := next_token fuel' w c in
     let error (w : pw) (c : cfg) : pw * cfg * prc := (w, c, PERR) in
     let errd (w : pw) (c : cfg) (m : String.string) := (add_diags w (cfg_diag c m), c, PERR) in
     let continue (w : pw) (c : cfg) (p : pst) := parse_internal fuel' w c level p in
